@@ -364,7 +364,7 @@ def sec_batch(rec, ids=(0, 1, 0, 1), patches=None):
             merged = [(bm.molecules.features["row"].to_list(), _collect(bm, xp)), (bf.molecules.features["row"].to_list(), _collect(bf, xp))]
             return bl, bl2, reg, _collect(bl2, xp), subs, it, merged
 
-        for pth in explore(run, assumptions=hyps, max_paths=20):
+        for pth in explore(run, assumptions=hyps, max_paths=20, max_depth=3000):
             if not pth.ok:
                 ok, det = rp({})
                 rec.fact(f"{tag}/runs", False, key="C03/batch/raises", detail={"exc": repr(pth.exc)[:300], **det}, reproduced=ok)
